@@ -31,11 +31,17 @@ TraceInit == Init /\ l \in 1..Len(TraceLog) /\ judged = FALSE
 
 ShiftRep(p, pl) == [p EXCEPT !.ln = [i \in DOMAIN p.ln |-> ShiftLine(p.ln[i], pl)]]
 
-\* Doc: is report p of the base run inside the slice the comment removes
-InSlice(rec, tab, p) ==
-  /\ (rec.cmt.scope = "file" \/ p.e = rec.rule)
+\* the rule a rule comment belongs to. Column-0 placement (F11, binding only): yaml.v3 attaches the comment to the
+\* previous rule as a foot comment
+\* (observed: only in files with LF line endings; in a CRLF file the same comment goes to the rule below it)
+RuleOf(rec) == IF rec.place.at = "above0" /\ rec.eol = "lf" THEN rec.rule - 1 ELSE rec.rule
+
+\* Doc: is report p of the base run inside the slice comment c removes
+InSliceOf(c, r, tab, p) ==
+  /\ (c.scope = "file" \/ p.e = r)
   /\ p.c \in DOMAIN tab
-  /\ DocSuppresses(rec.cmt, tab[p.c])
+  /\ DocSuppresses(c, tab[p.c])
+InSlice(rec, tab, p) == InSliceOf(rec.cmt, RuleOf(rec), tab, p)
 
 \* the run the new comment is compared with: the scenario's base run, or - when an expired snooze is already in
 \* the file - the run of the file with just that snooze
@@ -44,8 +50,11 @@ RefReports(rec) == IF rec.prior = "none" THEN Range(BaseOf(rec).reports) ELSE Ra
 Expected(rec) ==
   LET tab == InstanceTable(BaseOf(rec).cfg) IN
   {ShiftRep(p, rec.eplace) : p \in {q \in RefReports(rec) : ~InSlice(rec, tab, q)}}
-\* "An expired snooze changes nothing": the file with just the expired snooze reports what the plain file reports
-ExpectedPrior(rec) == {ShiftRep(p, rec.pplace) : p \in Range(BaseOf(rec).reports)}
+\* the file with just the comment that was there before: an expired snooze changes nothing, a future file/snooze
+\* removes its slice
+ExpectedPrior(rec) ==
+  LET tab == InstanceTable(BaseOf(rec).cfg) IN
+  {ShiftRep(p, rec.pplace) : p \in {q \in Range(BaseOf(rec).reports) : ~InSliceOf(rec.pcmt, rec.rule, tab, q)}}
 
 Brief(S) == {<<p.e, p.c>> : p \in S}
 
@@ -56,7 +65,10 @@ BindRun(rec) ==
   LET c == BaseOf(rec).cfg IN
   /\ rec.rules = ExpectedRules(rec.pplace, rec.eplace)
   /\ \A i \in DOMAIN rec.crules :      \* check lists of the targeted rule and of one other rule
-       rec.checks[i] = Strs(GetChecksForEntry(Load(c), EntryWith(rec.cmt, rec.prior, rec.crules[i] = rec.rule), "lint"))
+       rec.checks[i] = Strs(GetChecksForEntry(Load(c), EntryWith(rec.cmt, rec.prior, rec.crules[i] = RuleOf(rec)), "lint"))
+  \* owners: rule/owner names the rule, file/owner every rule of the file
+  /\ rec.owners = [r \in DOMAIN FileRules |->
+                     IF rec.cmt.type = "owner" /\ (rec.cmt.scope = "file" \/ r = RuleOf(rec)) THEN rec.cmt.match ELSE ""]
 
 TBase ==
   /\ ~judged /\ Rec.ev = "Base"
@@ -77,10 +89,12 @@ Describe(rec, exp, got, what) ==
 TRun ==
   /\ ~judged /\ Rec.ev = "Run"
   /\ LET exp == Expected(Rec)  got == Range(Rec.reports) IN
-     IF got = exp THEN TRUE ELSE PrintT(<<"VIOL", Rec.id, ToJson(Describe(Rec, exp, got, "comment"))>>)
+     \* binding only (never a violation): comments that name no check, and the column-0 placement
+     IF got = exp THEN TRUE
+     ELSE PrintT(<<IF IsExtra(Rec.cmt) \/ Rec.place.at = "above0" THEN "DRIFT" ELSE "VIOL", Rec.id, ToJson(Describe(Rec, exp, got, "comment"))>>)
   /\ IF Rec.prior = "none" THEN TRUE
      ELSE LET exp == ExpectedPrior(Rec)  got == Range(Rec.basereports) IN
-          IF got = exp THEN TRUE ELSE PrintT(<<"VIOL", Rec.id, ToJson(Describe(Rec, exp, got, "expired snooze alone"))>>)
+          IF got = exp THEN TRUE ELSE PrintT(<<"VIOL", Rec.id, ToJson(Describe(Rec, exp, got, "earlier comment alone"))>>)
   /\ IF BindRun(Rec) THEN TRUE
      ELSE PrintT(<<"DRIFT", Rec.id, ToJson([text |-> Rec.text, place |-> Rec.place, rule |-> Rec.rule, rules |-> Rec.rules,
                       crules |-> Rec.crules, checks |-> Rec.checks[1]])>>)
